@@ -39,8 +39,8 @@ ASSUMPTIONS = [
     'comments are excluded from the lossless comparison when they hold characters the target encoding cannot represent (escapes are not interpreted inside comments; recorded as KF-C08 if observed)',
 ]
 MIN_EVENTS = {
-    'quick': {'oracle.precedence': 19000, 'levels.checked': 38000, 'oracle.lossless': 15000, 'escapes.needed': 8000, 'table.depth1-rows': 1500},
-    'thorough': {'oracle.precedence': 230000, 'levels.checked': 450000, 'oracle.lossless': 240000, 'escapes.needed': 120000, 'table.depth1-rows': 1500},
+    'quick': {'oracle.conflict': 100, 'oracle.precedence': 19000, 'levels.checked': 38000, 'oracle.lossless': 15000, 'escapes.needed': 8000, 'table.depth1-rows': 1500},
+    'thorough': {'oracle.conflict': 1000, 'oracle.precedence': 230000, 'levels.checked': 450000, 'oracle.lossless': 240000, 'escapes.needed': 120000, 'table.depth1-rows': 1500},
 }
 
 ENCS = ['iso-8859-1', 'koi8-r', 'iso-8859-5', 'iso-8859-7', 'cp437', 'cp1251', 'mac-roman', 'iso-8859-2']
@@ -436,10 +436,66 @@ def raw_dom(sheet):
     return out
 
 
+BOMS = {'bom': (codecs.BOM_UTF8, None), 'bom16': (codecs.BOM_UTF16_LE, 'utf-16-le'), 'bom32': (codecs.BOM_UTF32_LE, 'utf-32-le'),
+        'bom16be': (codecs.BOM_UTF16_BE, 'utf-16-be'), 'bom32be': (codecs.BOM_UTF32_BE, 'utf-32-be')}
+
+
+def conflict_case(ctx, c, case):
+    """a byte order mark against a stronger source (override, transport charset): the stronger source decides, for the sheet
+    handed to parseUrl and for an imported one alike.  (What the mark's bytes read as in that encoding is garbage in front of
+    the first rule: only the reported encoding, and for a UTF-8 mark the decoded probe, are asked.)"""
+    where, http, decl, override = case['where'], case['http'], case['decl'], case['override']
+    bom, wide = BOMS[decl]
+    content = bom + ('p0{content:"W"}'.encode(wide) if wide else b'p0{content:"' + PROBE + b'"}')
+    core.canonical_state(c, raising=False)
+    ctx.count('oracle.conflict')
+    try:
+        parser = c.CSSParser(fetcher=lambda url: (http, content))
+        if where == 'top':
+            sheet = parser.parseUrl('http://h/top.css', encoding=override)
+        else:
+            outer = parser.parseString('@import "L1.css";', href='http://h/top.css', encoding=override)
+            sheet = outer.cssRules[-1].styleSheet
+        want = override or http
+        problems = []
+        if sheet is None:
+            problems.append('no sheet')
+        else:
+            if norm(sheet.encoding) != norm(want):
+                problems.append('sheet reports %r, ladder says %r' % (sheet.encoding, want))
+            if not wide:
+                got = [r.style.getPropertyValue('content') for r in sheet.cssRules if type(r).__name__ == 'CSSStyleRule' and r.selectorText.endswith('p0')]
+                if got != ['"%s"' % PROBE.decode(want)]:
+                    problems.append('decoded %r, ladder (%s) gives %r' % (got, want, PROBE.decode(want)))
+        if problems:
+            ctx.violation('precedence', case, {'problems': problems})
+    except Exception as e:
+        ctx.violation('precedence.exception', case, {'tb': core.short_tb(e)}, site=core.raise_site(e))
+    core.canonical_state(c)
+
+
+def stream_conflict(ctx, c):
+    idx = 0
+    for rep in range(1 if ctx.tier == 'quick' else 10):
+        for where in ('top', 'import'):
+            # (single-byte encodings that define every byte of the marks: a decoding error is another matter)
+            for http in ('koi8-r', 'cp437', 'iso-8859-2', 'cp1251'):
+                for decl in BOMS:
+                    for override in (None, 'iso-8859-5', 'cp1251'):
+                        idx += 1
+                        if not ctx.mine(idx):
+                            continue
+                        ctx.count('evaluations')
+                        case = {'kind': 'conflict', 'where': where, 'http': http, 'decl': decl, 'override': override}
+                        conflict_case(ctx, c, case)
+                        ctx.seen(['X', where, http, decl, override])
+
+
 def run_worker(ctx):
     c, _ = core.import_repo()
     quick = ctx.tier == 'quick'
     idx = 0
+    stream_conflict(ctx, c)
     # ---- depth-1 table, complete
     for api in ('parseString', 'parseUrl', 'parseFile'):
         for override in (None, 'iso-8859-2'):
@@ -497,6 +553,8 @@ def replay(ctx, case):
     c, _ = core.import_repo()
     if case['kind'] == 'chain':
         run_chain(ctx, c, case['api'], case['override'], tuple(case['top']), [tuple(x) for x in case['levels']], case)
+    elif case['kind'] == 'conflict':
+        conflict_case(ctx, c, case)
     else:
         import random
 
